@@ -14,7 +14,7 @@ from vf.props.c13 import snapshot
 
 ID = "C15"
 LEVEL = "fault_enumeration"
-BUDGET = {"quick": 64, "thorough": 1600}
+BUDGET = {"quick": 128, "thorough": 1600}
 MIN_NONTRIVIAL = {"quick": 100, "thorough": 1000}
 EXHAUSTIVE = True
 RULE = (
